@@ -835,7 +835,6 @@ func mModelSet(m *openfgav1.AuthorizationModel) string {
 	return strings.Join(parts, ";") + "|" + mCondText(m)
 }
 
-
 // mSyntaxErrorFile: the file a syntax error names (field File, added by the repair of this defect; before, the
 // error type had no way to say so and this function returned "").
 func mSyntaxErrorFile(e *OpenFgaDslSyntaxError) string {
